@@ -184,8 +184,7 @@ def seq_concat(I, st, a, b, fr, k):
         loc = I.alloc(s2, "builtins.tuple")
         ea, eb = s2.read(ELS, la), s2.read(ELS, lb)
         i = z3.Int(I.w.fresh("i"))
-        newa = z3.Const(I.w.fresh("cat"), IntArr)
-        s2.fact(z3.ForAll([i], z3.Select(newa, i) == z3.If(i < na, z3.Select(ea, i), z3.Select(eb, i - na))))
+        newa = z3.Lambda([i], z3.If(i < na, z3.Select(ea, i), z3.Select(eb, i - na)))
         s2.fact(na >= 0, nb >= 0)
         s2.write(ELS, loc, newa)
         s2.write(LEN, loc, na + nb)
@@ -328,7 +327,9 @@ def getattr_sym(I, st, v, name, fr, k):
                 return I.call(st, fv, [v], {}, fr, k)
             if ent["kind"] in ("method", "static", "classmethod", "const"):
                 return k(st, I._member(st, owner, ent, v, fr))
-            if ent["kind"] == "other" and not _is_instance_field(I, hint, name):
+            if ent["kind"] == "slot":
+                pass        # C-level instance slot (e.g. BaseException.__traceback__): a field read
+            elif ent["kind"] == "other" and not _is_instance_field(I, hint, name):
                 return k(st, I._member(st, owner, ent, v, fr))
         if name == "__class__":
             return k(st, ClassV(hint))
@@ -347,10 +348,13 @@ def getattr_sym(I, st, v, name, fr, k):
 
 
 def _is_instance_field(I, hint, name):
-    return field_hint(I, hint, name) is not None or (hint, name) in INSTANCE_FIELDS
+    if field_hint(I, hint, name) is not None:
+        return True
+    return any((c, name) in INSTANCE_FIELDS for c in I.w.class_mro.get(hint, [hint]))
 
 
-INSTANCE_FIELDS = set()
+INSTANCE_FIELDS = {("builtins.BaseException", "__traceback__"), ("builtins.BaseException", "__cause__"),
+                   ("builtins.BaseException", "__context__"), ("builtins.BaseException", "args")}
 
 
 def call_sym(I, st, f, args, kwargs, fr, k):
@@ -729,7 +733,17 @@ def sf_hasattr(I, st, e, fr, k):
 
 HASATTR = {}
 
-SPECIAL_FORMS = {"old": sf_old, "fresh": sf_fresh, "implies": sf_implies, "iff": sf_iff, "isinstance": sf_isinstance,
+def sf_uf(I, st, e, fr, k):
+    """uf('name', args...): an uninterpreted V-valued function of its arguments (spec only)."""
+    name = e.args[0].value
+    def got(s2, vals):
+        ts = [as_sym(I, s2, v).t for v in vals]
+        f = z3.Function("uf_" + name, *([V] * len(ts)), V)
+        return k(s2, Sym(f(*ts)))
+    return I.ev_list(st, e.args[1:], fr, got)
+
+
+SPECIAL_FORMS = {"uf": sf_uf, "old": sf_old, "fresh": sf_fresh, "implies": sf_implies, "iff": sf_iff, "isinstance": sf_isinstance,
                  "super": sf_super, "forall": sf_forall, "exists": sf_forall, "hasattr": sf_hasattr}
 SPECIAL_ALWAYS = {"isinstance", "super", "hasattr"}
 
@@ -810,6 +824,10 @@ def b_int(I, st, args, kwargs, fr, k):
         def rest(s3):
             def kstr(s4):
                 s = z3.If(is_str(t), get_s(t), get_y(t))
+                from . import regex
+                digits = regex.language(regex.parse_literal(r"^\s*[0-9]+\s*\Z"), "match")
+                s4.fact(z3.Implies(z3.And(base == 10, z3.InRe(s, digits)), z3.And(str_is_int(s, base), str_int(s, base) >= 0)))
+                note(I, "int(s): strings of the form \\s*[0-9]+\\s* parse to a non-negative integer; other strings: uninterpreted")
                 return I.branch(s4, str_is_int(s, base), lambda s5: k(s5, Sym(mk_int(str_int(s, base)))),
                                 lambda s5: I.raise_(s5, "builtins.ValueError", "invalid literal for int()"))
             return I.branch(s3, z3.Or(is_str(t), is_byt(t)), kstr, lambda s4: type_error(I, s4, "int() argument"))
@@ -828,6 +846,11 @@ def b_list(I, st, args, kwargs, fr, k):
         return k(st, new_list(I, st, []))
     items = concrete_items(I, st, args[0])
     if items is None:
+        if isinstance(args[0], OpaqueIter):
+            loc = I.alloc(st, "builtins.list")
+            n = st.read(LEN, loc)
+            st.fact(n >= 0, n <= args[0].maxlen)
+            return k(st, Sym(mk_ref(loc), hint="builtins.list"))
         raise Unsupported("list() of symbolic iterable")
     return k(st, new_list(I, st, items))
 
@@ -880,6 +903,14 @@ def b_frozenset(frozen):
 
 
 def USER_SET_FROM(I, st, v, frozen, fr, k):
+    from .loops import GenOver
+    if isinstance(v, GenOver) or isinstance(v, Sym):
+        # over-approximation: a fresh set object with unconstrained content (sound; listed)
+        note(I, "set()/frozenset() built from a collection of unknown size: content unconstrained (over-approximation)")
+        loc = I.alloc(st, "builtins.frozenset" if frozen else "builtins.set")
+        n = st.read(LEN, loc)
+        st.fact(n >= 0)
+        return k(st, Sym(mk_ref(loc), hint="builtins.frozenset" if frozen else "builtins.set"))
     raise Unsupported("set()/frozenset() of symbolic items")
 
 
@@ -981,7 +1012,69 @@ def b_getattr(I, st, args, kwargs, fr, k):
     return res
 
 
+def b_with_traceback(I, st, args, kwargs, fr, k):
+    exc, tb = args
+    st.write("__traceback__", get_loc(exc.t), I.term(st, tb))
+    return k(st, exc)
+
+
+def b_re_fn(mode):
+    def f(I, st, args, kwargs, fr, k):
+        from . import regex
+        pat = concrete_key(I, st, args[0])
+        if isinstance(args[0], RegexV):
+            rx = args[0]
+        elif isinstance(pat, (str, bytes)):
+            flags = concrete_key(I, st, args[2]) if len(args) > 2 else 0
+            rx = RegexV(regex.parse_literal(pat, flags or 0))
+            note(I, "literal regex parsed by the engine interpreter's sre parser")
+        else:
+            raise Unsupported("re.%s with a non-literal pattern" % mode)
+        if mode == "compile":
+            return k(st, rx)
+        return regex.call(I, st, rx, mode, [args[1]], {}, fr, k)
+    return f
+
+
+class OpaqueIter(Value):
+    """An iterator producing at most `maxlen` items we know nothing about (over-approximation)."""
+    __slots__ = ("maxlen",)
+
+    def __init__(self, maxlen):
+        self.maxlen = maxlen
+
+
+def seq_len_term(I, st, v):
+    if isinstance(v, BoundV) and v.name == "$reversed":
+        return seq_len_term(I, st, v.recv)
+    if isinstance(v, OpaqueIter):
+        return v.maxlen
+    items = concrete_items(I, st, v)
+    if items is not None:
+        return z3.IntVal(len(items))
+    if isinstance(v, Sym):
+        return st.read(LEN, get_loc(v.t))
+    raise Unsupported(f"length of {v!r}")
+
+
+def b_takewhile(I, st, args, kwargs, fr, k):
+    pred, it = args
+    items = concrete_items(I, st, it)
+    if items is not None:
+        def go(s2, i, acc):
+            if i == len(items):
+                return k(s2, Tup(acc))
+            return I.call(s2, pred, [items[i]], {}, fr, lambda s3, r: I.branch(s3, I.truthy(s3, r),
+                          lambda s4: go(s4, i + 1, acc + [items[i]]), lambda s4: k(s4, Tup(acc))))
+        return go(st, 0, [])
+    note(I, "takewhile over a sequence of unknown length: yields an unknown number (<= len) of items; the predicate is assumed not to raise")
+    return k(st, OpaqueIter(seq_len_term(I, st, it)))
+
+
 BUILTINS = {
+    "re.match": b_re_fn("match"), "re.search": b_re_fn("search"), "re.fullmatch": b_re_fn("fullmatch"),
+    "re.compile": b_re_fn("compile"), "itertools.takewhile": b_takewhile,
+    "builtins.BaseException.with_traceback": b_with_traceback,
     "min": b_minmax("min"), "max": b_minmax("max"), "len": b_len, "reversed": b_reversed,
     "time.monotonic": b_monotonic, "time.sleep": b_sleep, "random.random": b_random,
     "socket.getdefaulttimeout": b_getdefaulttimeout, "_socket.getdefaulttimeout": b_getdefaulttimeout,
@@ -995,6 +1088,7 @@ CONSTRUCTORS = {
     "builtins.float": b_float, "builtins.int": b_int, "builtins.bool": b_bool, "builtins.list": b_list,
     "builtins.tuple": b_tuple, "builtins.dict": b_dict, "builtins.frozenset": b_frozenset(True),
     "builtins.set": b_frozenset(False), "builtins.type": b_type, "builtins.str": b_str,
+    "itertools.takewhile": b_takewhile,
 }
 
 
